@@ -173,7 +173,15 @@ def geometric(job, ex):
     A = cm.zabs
     box = [A(L) <= 10 ** 15, A(a) <= 10 ** 15, A(a) >= sn.ratval(Fraction(1, 10 ** 15)), A(q) <= 50,
            A(q) >= sn.ratval(Fraction(1, 50)), A(q - 1) >= sn.ratval(Fraction(1, 50))]
-    shanks = r != L + a * q * q          # the converged fallback returns v_2 itself
+    # the DOCUMENTED guards, restated from the inputs (not read off the code): the three terms are not converged
+    # (|difference| > eps * max|term|) and there is no irregular behaviour (|sss*e1| > 1e-4, where for a geometric triple
+    # sss*e1 = -(L + a q)/(a q)).  A guard that fires outside this region is a violation.
+    eps = sn.ratval(2.0 ** -52)
+    e0t, e1t, e2t = L + a, L + a * q, L + a * q * q
+    mx01 = z3.If(A(e0t) >= A(e1t), A(e0t), A(e1t))
+    mx12 = z3.If(A(e1t) >= A(e2t), A(e1t), A(e2t))
+    shanks = z3.And(A(a * (q - 1)) > 2 * eps * mx01, A(a * q * (q - 1)) > 2 * eps * mx12,
+                    A(L + a * q) > sn.ratval(Fraction(2, 10 ** 4)) * A(a * q))
     tiny = sn.ratval(Fraction(1, 10 ** 250))
     nice = [A(L) <= 4, A(a) <= 4, A(a) >= sn.ratval(Fraction(1, 4)), q >= sn.ratval(Fraction(1, 4)),
             q <= sn.ratval(Fraction(3, 4)), A(r - L) >= sn.ratval(Fraction(1, 1000))]
